@@ -80,6 +80,8 @@ Inductive value :=
 | PNone
 | PList (items : list value)
 | PTuple (items : list value)
+| PSet (items : list value)       (* a set: its members in iteration order *)
+| PDict (items : list value)      (* a dict: key, value, key, value ... in insertion order *)
 | POpaque (n : N).    (* any other object: truthy, not iterable, not representable as a model *)
 
 Fixpoint inj (m : model) : value :=
@@ -194,16 +196,20 @@ Definition truthy (v : value) : bool :=
   | VFloat f | PFloat f => negb (f_is_zero f)
   | VCpx re im | PCpx re im => negb (f_is_zero re && f_is_zero im)
   | VBytes b | PBytes b => negb (is_nil b)
-  | VSeq _ items | PList items | PTuple items => negb (is_nil items)
+  | VSeq _ items | PList items | PTuple items | PSet items | PDict items => negb (is_nil items)
   | PBool b => b
   | PNone => false
   | POpaque _ => true
   end.
 
+Fixpoint dict_keys (d : list value) : list value :=
+  match d with k :: _ :: r => k :: dict_keys r | _ => [] end.
+
 (* iter(v), completely consumed *)
 Definition iterate (v : value) : res (list value) :=
   match v with
-  | VSeq _ items | PList items | PTuple items => Ok items
+  | VSeq _ items | PList items | PTuple items | PSet items => Ok items
+  | PDict items => Ok (dict_keys items)
   | VSym s | VStr s _ | PStr s => Ok (map (fun c => PStr [c]) s)
   | VBytes b | PBytes b => Ok (map (fun c => PInt (Z.of_N c)) b)
   | _ => Err ENotIterable
@@ -254,6 +260,79 @@ Definition mk_seq (k : seqkind) (items : list value) : res value :=
       | None => Ok (VSeq k j)
       end
   | _ => Ok (VSeq k items)
+  end.
+
+(* ------------------------------------------------------------------ collection displays *)
+Definition opt_text_eqb (a b : option text) : bool :=
+  match a, b with None, None => true | Some x, Some y => text_eqb x y | _, _ => false end.
+
+Definition kind_eqb (a b : seqkind) : bool :=
+  match a, b with
+  | KExpr, KExpr | KList, KList | KTuple, KTuple | KSet, KSet | KDict, KDict => true
+  | KFString b1 t1, KFString b2 t2 => opt_text_eqb b1 b2 && Bool.eqb t1 t2
+  | KFComp c1 e1 t1, KFComp c2 e2 t2 => opt_text_eqb c1 c2 && opt_text_eqb e1 e2 && Bool.eqb t1 t2
+  | _, _ => false
+  end.
+
+(* Python's == on the values used as set members / dict keys, read structurally (same class, same
+   payload); the generators only repeat identical members, so no cross-class equality is needed *)
+Fixpoint value_eqb (a b : value) : bool :=
+  match a, b with
+  | VSym x, VSym y | VKw x, VKw y | PStr x, PStr y => text_eqb x y
+  | VInt x, VInt y | PInt x, PInt y => Z.eqb x y
+  | VFloat x, VFloat y | PFloat x, PFloat y | POpaque x, POpaque y => N.eqb x y
+  | VCpx x1 x2, VCpx y1 y2 | PCpx x1 x2, PCpx y1 y2 => N.eqb x1 y1 && N.eqb x2 y2
+  | VStr x _, VStr y _ => text_eqb x y
+  | VBytes x, VBytes y | PBytes x, PBytes y => text_eqb x y
+  | PBool x, PBool y => Bool.eqb x y
+  | PNone, PNone => true
+  | VSeq k1 l1, VSeq k2 l2 =>
+      kind_eqb k1 k2
+      && (fix go (l1 l2 : list value) : bool :=
+            match l1, l2 with
+            | [], [] => true
+            | x :: r, y :: s => value_eqb x y && go r s
+            | _, _ => false
+            end) l1 l2
+  | PTuple l1, PTuple l2 =>
+      (fix go (l1 l2 : list value) : bool :=
+         match l1, l2 with
+         | [], [] => true
+         | x :: r, y :: s => value_eqb x y && go r s
+         | _, _ => false
+         end) l1 l2
+  | _, _ => false
+  end.
+
+(* set(items): the first occurrence of every member *)
+Fixpoint dedup (l : list value) : list value :=
+  match l with
+  | [] => []
+  | x :: r => x :: filter (fun y => negb (value_eqb x y)) (dedup r)
+  end.
+
+(* d[k] = v on the flattened representation *)
+Fixpoint dict_set (d : list value) (k v : value) : list value :=
+  match d with
+  | k0 :: v0 :: r => if value_eqb k0 k then k0 :: v :: r else k0 :: v0 :: dict_set r k v
+  | _ => [k; v]
+  end.
+
+Fixpoint dict_of (items acc : list value) : option (list value) :=
+  match items with
+  | [] => Some acc
+  | k :: v :: r => dict_of r (dict_set acc k v)
+  | [_] => None
+  end.
+
+(* the value of a list / tuple / set / dict display whose element values are vs *)
+Definition display (k : seqkind) (vs : list value) : res value :=
+  match k with
+  | KList => Ok (PList vs)
+  | KTuple => Ok (PTuple vs)
+  | KSet => Ok (PSet (dedup vs))
+  | KDict => match dict_of vs [] with Some d => Ok (PDict d) | None => Err EUnmodelled end
+  | _ => Err EUnmodelled
   end.
 
 (* ------------------------------------------------------------------ constructor calls *)
@@ -375,7 +454,7 @@ Fixpoint as_model (v : value) : res value :=
       | Err e => Err e
       | Ok items' => mk_seq k items'
       end
-  | PList items | PTuple items =>
+  | PList items | PTuple items | PSet items | PDict items =>
       match (fix go (l : list value) : res (list value) :=
                match l with
                | [] => Ok []
@@ -385,7 +464,7 @@ Fixpoint as_model (v : value) : res value :=
                            end
                end) items with
       | Err e => Err e
-      | Ok items' => Ok (VSeq (match v with PTuple _ => KTuple | _ => KList end) items')
+      | Ok items' => Ok (VSeq (match v with PTuple _ => KTuple | PSet _ => KSet | PDict _ => KDict | _ => KList end) items')
       end
   | PInt z => Ok (VInt z)
   | PFloat f => Ok (VFloat f)
@@ -579,8 +658,10 @@ Fixpoint eval (m : model) : M value :=
   | MBytes b => ret (PBytes b)
   | MKw s => ret (VKw s)
   | MSym s => match py_const s with Some v => ret v | None => user m end
-  | MSeq KList items =>
-      (* a list display; (unpack-iterable e) elements are starred *)
+  | MSeq k items =>
+      match k with
+      | KList | KTuple | KSet | KDict =>
+      (* a collection display; (unpack-iterable e) elements are starred *)
       bind ((fix go (l : list model) : M (list value) :=
                match l with
                | [] => ret []
@@ -597,8 +678,11 @@ Fixpoint eval (m : model) : M value :=
                          end)
                         (fun vs => bind (go r) (fun ws => ret (vs ++ ws)))
                end) items)
-           (fun vs => ret (PList vs))
-  | MSeq KExpr (head :: args) =>
+           (fun vs => lift (display k vs))
+      | KExpr =>
+      match items with
+      | [] => user m
+      | head :: args =>
       match head_kind_of head with
       | HCtor c =>
           (* Python evaluates the positional arguments, then the keyword values *)
@@ -625,7 +709,9 @@ Fixpoint eval (m : model) : M value :=
           end
       | HOther => user m
       end
-  | _ => user m
+      end
+      | _ => user m
+      end
   end.
 
 (* named versions of the local loops *)
